@@ -10,6 +10,28 @@ TEXT = {
  "C07": "exactly one of Select/Abandoned per request, one terminal call per learner, retry once on the largest size class, background learning uncacheable and bounded",
 }
 
+def extend(history, step):
+    """Histories near a disagreeing one: the prefix up to and including the
+    disagreeing event, followed by clock jumps around every configured timeout
+    (a mis-armed timeout, a lost wake-up or a leaked object shows up once the
+    clock passes it), each followed by releasing every parked call."""
+    ops = history["ops"][:step + 1]
+    cfg = history["cfg"]
+    calls = sorted({o["c"] for o in ops if "c" in o})
+    nxt = (max(calls) + 1) if calls else 0
+    out = []
+    jumps = set()
+    for k in ("update", "nowait", "pq", "busy", "idle", "worker"):
+        for d in (-1_000_000, 1_000_000):
+            jumps.add(cfg[k] + d)
+    for j in sorted(x for x in jumps if x > 0):
+        tail = [{"k": "tick", "c": nxt, "dt": j}]
+        tail += [{"k": "enter", "c": c, "dt": 1} for c in calls]
+        tail += [{"k": "tick", "c": nxt + 1, "dt": 3000_000_000_000}]
+        out.append({"cfg": cfg, "ops": ops + tail})
+    return out
+
+
 def config(pid, extra_props=None):
     return {
         "id": pid,
@@ -18,6 +40,7 @@ def config(pid, extra_props=None):
         "properties_files": ["theories/Sched/Properties%s.v" % (pid if pid != "C07" else "C07s")],
         "required_theorems": [],
         "violation_kinds": [pid + ":"],
+        "extend": extend,
         "harnesses": [
             {"cmd": "sched", "cases_quick": 96, "cases_thorough": 1600, "shards_quick": 16, "shards_thorough": 32, "shared": True, "procs": 4},
         ],
